@@ -540,6 +540,22 @@ func init() {
 	I["google.golang.org/protobuf/proto.Clone"] = func(ex *Exec, th *Thread, fn *ssa.Function, a []Value) (Value, bool) {
 		return ex.deepCopy(a[0], map[*Value]*Value{}), false
 	}
+	// ---- slices.Grow on abstract slices (concrete slices are interpreted)
+	I["slices.Grow"] = func(ex *Exec, th *Thread, fn *ssa.Function, a []Value) (Value, bool) {
+		sv := a[0].(sliceV)
+		if sv.abs == nil {
+			ex.pushFrame(th, fn, a, nil, ex.curSite)
+			return nil, false
+		}
+		n := a[1].(*Term)
+		if ex.branch(ex.tc.Bin(OpSLt, n, ex.tc.Const(64, 0)), "grow-negative") {
+			ex.goPanic(th, ifaceV{t: ex.eng.runtimeErrT, v: strV{s: "cannot be negative"}}, "panic: cannot be negative")
+			return nil, false
+		}
+		need := ex.tc.Bin(OpAdd, sv.abs.length, n)
+		newCap := ex.tc.Ite(ex.tc.Bin(OpSLt, sv.abs.capa, need), need, sv.abs.capa)
+		return sliceV{abs: &absSlice{length: sv.abs.length, capa: newCap, elemT: sv.abs.elemT}}, false
+	}
 	// ---- farm hash: uninterpreted per distinct concrete input
 	I["github.com/dgryski/go-farm.Fingerprint32"] = func(ex *Exec, th *Thread, fn *ssa.Function, a []Value) (Value, bool) {
 		sv := a[0].(sliceV)
